@@ -162,6 +162,12 @@ impl DataStorage {
     }
 
     pub fn unstage(&mut self) -> Result<()> {
+        {
+            let mut cache = self.cache.lock().unwrap();
+            for digest in self.stage.keys() {
+                cache.pop(digest);
+            }
+        }
         self.stage.clear();
         Ok(())
     }
